@@ -608,6 +608,25 @@ func (e *engine) oneCase(c *Case) {
 		res.Sample(map[string]any{"stream": c.Stream, "store": c.Store, "v4": c.V4, "v6": c.V6, "raw": c.Raw,
 			"calls": strings.Split(showCalls(calls), "\n")})
 	}
+	// the body of every PUT / PATCH of a service is, byte for byte, what the Lean model of MarshalJSON
+	// (`render`, proved injective on these entries) writes for the TARGET's definition given as a structure
+	for _, k := range calls {
+		if k.Kind != "PS" && k.Kind != "AS" {
+			continue
+		}
+		for _, s := range T.Services {
+			if s.Id != k.Id {
+				continue
+			}
+			ans := strings.SplitN(e.drv.Ask("svc\t"+encEntries(entriesOf(s.Defn))), "\t", 2)
+			res.Count("service-marshalling-tie")
+			res.TracesVsImpl++
+			if len(ans) != 2 || ans[0] != "WF" || ans[1] != k.RawDefn {
+				res.Disagree("service marshalling", map[string]any{"case": c, "service": s.Id, "definition": s.Defn}, k.RawDefn, strings.Join(ans, " "))
+			}
+			break
+		}
+	}
 	// inputs outside the property's quantifier (the generator's malformed stream): tie only
 	if cl["targetWF"] == "0" || cl["storeWF"] == "0" || cl["extRefs"] == "0" || cl["addrsNodup"] == "0" {
 		res.Count("oracle-skipped:input-not-well-formed")
